@@ -289,11 +289,11 @@ theorem sys_acked_found_partial (c : Merge.Cfg) (q : Query) (from_ to_ : Nat) (h
         r.ids = ids.map keyOf)
     -- C09
     (coldT hotT : Replica.Tier) (oracle : List (List (Nat × Replica.Call) × List (Nat × Replica.Call)))
-    (hack : (Replica.storeDocuments coldT hotT oracle Replica.init).1 = true) (hS : hotT.S ≠ 0) (hR : 0 < hotT.R)
+    (hack : (Replica.storeDocuments coldT hotT oracle Replica.init).1 = true) (hS : hotT.S ≠ 0)
     -- the documents of the acknowledged bulk, as the Spec sees them
     (bulk : List Doc)
     -- interface I1
-    (I1 : ∀ s r, (s, r) ∈ (Replica.storeDocuments coldT hotT oracle Replica.init).2.hotLog →
+    (I1 : ∀ s, (∀ r, r < hotT.R → (s, r) ∈ (Replica.storeDocuments coldT hotT oracle Replica.init).2.hotLog) →
       s < hot.length ∧ ∀ d ∈ bulk, d ∈ storedDocs (fracs s)) :
     ∃ ids t e, search hotArr coldArr offset size rev = .ok ids t e false false ∧
       ids.map (fun x => toSpecID x.1) =
@@ -307,7 +307,7 @@ theorem sys_acked_found_partial (c : Merge.Cfg) (q : Query) (from_ to_ : Nat) (h
   obtain ⟨ids, t, e, h1, h2, _, hsound, hcompl, hpage⟩ := sys_read c q from_ to_ hot hotArr coldArr hh offset size hlim
     rev hdesc fracs hok hmax hne hall hans
   obtain ⟨s, hs⟩ := sys_ack_full_set coldT hotT oracle hack hS
-  obtain ⟨hlt, hdocs⟩ := I1 s 0 (hs 0 hR)
+  obtain ⟨hlt, hdocs⟩ := I1 s hs
   have hin : ∀ d ∈ bulk, d ∈ allDocs hot.length fracs := fun d hd => sys_mem_allDocs _ fracs s hlt d (hdocs d hd)
   exact ⟨ids, t, e, h1, h2, fun d hd hw hm => hcompl d (hin d hd) hw hm,
     fun h0 hlen d hd hw hm => hpage h0 hlen d (hin d hd) hw hm, hsound⟩
@@ -326,9 +326,9 @@ theorem sys_acked_token_found_partial (c : Merge.Cfg) (f v : Bytes) (from_ to_ :
       ∃ r, Merge.searchDocs c (storeFracs (fracs s) (.leaf (.lit f [.text v])) from_ to_) from_ to_ (offset + size) = some r ∧
         r.ids = ids.map keyOf)
     (coldT hotT : Replica.Tier) (oracle : List (List (Nat × Replica.Call) × List (Nat × Replica.Call)))
-    (hack : (Replica.storeDocuments coldT hotT oracle Replica.init).1 = true) (hS : hotT.S ≠ 0) (hR : 0 < hotT.R)
+    (hack : (Replica.storeDocuments coldT hotT oracle Replica.init).1 = true) (hS : hotT.S ≠ 0)
     (bulk : List Doc)
-    (I1 : ∀ s r, (s, r) ∈ (Replica.storeDocuments coldT hotT oracle Replica.init).2.hotLog →
+    (I1 : ∀ s, (∀ r, r < hotT.R → (s, r) ∈ (Replica.storeDocuments coldT hotT oracle Replica.init).2.hotLog) →
       s < hot.length ∧ ∀ d ∈ bulk, d ∈ storedDocs (fracs s))
     (d : Doc) (hd : d ∈ bulk) (htok : (f, v) ∈ d.tokens) (hw : inWindow from_ to_ d = true) :
     ∃ ids t e, search hotArr coldArr offset size rev = .ok ids t e false false ∧
@@ -336,7 +336,7 @@ theorem sys_acked_token_found_partial (c : Merge.Cfg) (f v : Bytes) (from_ to_ :
       (offset = 0 → (fullList (allDocs hot.length fracs) (.leaf (.lit f [.text v])) from_ to_ rev).length ≤ size →
         ∃ x ∈ ids, toSpecID x.1 = d.id) := by
   obtain ⟨ids, t, e, h1, _, h3, h4, _⟩ := sys_acked_found_partial c (.leaf (.lit f [.text v])) from_ to_ hot hotArr
-    coldArr hh offset size hlim rev hdesc fracs hok hmax hne hall hans coldT hotT oracle hack hS hR bulk I1
+    coldArr hh offset size hlim rev hdesc fracs hok hmax hne hall hans coldT hotT oracle hack hS bulk I1
   have hm := sys_token_findable d f v htok
   exact ⟨ids, t, e, h1, h3 d hd hw hm, fun h0 hlen => h4 h0 hlen d hd hw hm⟩
 
@@ -344,9 +344,9 @@ theorem sys_acked_token_found_partial (c : Merge.Cfg) (f v : Bytes) (from_ to_ :
 pipeline reached (no crash, nothing sealed yet).  `hist s` = the bulks of metas shard `s`'s store was handed, in order
 (C10: `toCollector` of `metasFor` of the accepted documents - `c10_stored_metas`, `c10_c17_collector_view`); the shard
 serves `activeFrac (reached (hist s))`.  Hypotheses by origin: C17/C02 - `hd hs hg` (ids distinct inside a bulk, no
-nested metas, uint64 ids); C05 - `hmax`; C16 - `hh hlim hne hall`; link C16-C05 - `hans`, `hdesc`; C09 - `hack hS hR`;
-junction **J** (the store's `Bulk` handler, not modelled) - a successful `Bulk` call for this payload on a replica of
-shard `s` means `s` is one of the shards read and its pipeline was handed the bulk `B`; `hfirst` - the documents of `B`
+nested metas, uint64 ids); C05 - `hmax`; C16 - `hh hlim hne hall`; link C16-C05 - `hans`, `hdesc`; C09 - `hack hS`;
+junction **J** (the store's `Bulk` handler, not modelled) - for the shard all of whose replicas returned success (C09's
+full set) `s` is one of the shards read and the serving store's pipeline was handed the bulk `B`; `hfirst` - the documents of `B`
 are first deliveries there (re-deliveries are dropped, `c17_idempotent`).
 Conclusion: for every meta `m` of the acknowledged bulk and every token `field:value` the indexer emitted for it, with
 the document's MID inside the window, the query `field:value` gets a complete unflagged answer whose ordered list
@@ -366,9 +366,9 @@ theorem sys_ingest_to_read_active (c : Merge.Cfg) (f v : Bytes) (from_ to_ : Nat
       ∃ r, Merge.searchDocs c (storeFracs [activeFrac (reached (hist s))] (.leaf (.lit f [.text v])) from_ to_)
         from_ to_ (offset + size) = some r ∧ r.ids = ids.map keyOf)
     (coldT hotT : Replica.Tier) (oracle : List (List (Nat × Replica.Call) × List (Nat × Replica.Call)))
-    (hack : (Replica.storeDocuments coldT hotT oracle Replica.init).1 = true) (hS : hotT.S ≠ 0) (hR : 0 < hotT.R)
+    (hack : (Replica.storeDocuments coldT hotT oracle Replica.init).1 = true) (hS : hotT.S ≠ 0)
     (B : List Collector.Meta)
-    (J : ∀ s r, (s, r) ∈ (Replica.storeDocuments coldT hotT oracle Replica.init).2.hotLog →
+    (J : ∀ s, (∀ r, r < hotT.R → (s, r) ∈ (Replica.storeDocuments coldT hotT oracle Replica.init).2.hotLog) →
       s < hot.length ∧ B ∈ hist s)
     (hfirst : ∀ s, B ∈ hist s → ∀ m ∈ B, m ∈ ActiveReach.keptRun Collector.Active.empty (hist s))
     (m : Collector.Meta) (hm : m ∈ B) (tok : Collector.MetaToken) (htok : tok ∈ m.tokens)
@@ -388,7 +388,7 @@ theorem sys_ingest_to_read_active (c : Merge.Cfg) (f v : Bytes) (from_ to_ : Nat
   obtain ⟨ids, t, e, h1, _, _, hsound, hcompl, hpage⟩ := sys_read c (.leaf (.lit f [.text v])) from_ to_ hot hotArr
     coldArr hh offset size hlim rev hdesc (fun s => [activeFrac (reached (hist s))]) hok hmax hne hall hans
   obtain ⟨s, hsFull⟩ := sys_ack_full_set coldT hotT oracle hack hS
-  obtain ⟨hlt, hB⟩ := J s 0 (hsFull 0 hR)
+  obtain ⟨hlt, hB⟩ := J s hsFull
   obtain ⟨d, hdIn, hdid, hdtok⟩ := (sys_i1_active (hist s) (hd s) (hs s) (hg s) from_).2 m (hfirst s hB m hm)
   have hdAll : d ∈ allDocs hot.length (fun s => [activeFrac (reached (hist s))]) := sys_mem_allDocs _ _ s hlt d hdIn
   have hmatch : docMatches (.leaf (.lit f [.text v])) d = true :=
